@@ -173,7 +173,7 @@ def obligations(tier):
                 "every slice preserved (no zero column)", side_nonzero=True)
     # ---------------------------------------------------------------------- cp_permute_factors (assignment solver by contract)
     import itertools
-    from ..iterative import stubbed
+    from ..iterative import stubbed, real_dtype
     for Rk in (2, 3):
         for perm in itertools.permutations(range(Rk)):
             def setup(S, Rk=Rk):
@@ -245,7 +245,7 @@ def obligations(tier):
                 def svd_stub(matrix, n_eigenvecs=None, **kw):
                     if S.name == "sym":
                         U = G.opaque_tensor("SVDU", [matrix.shape[0], n_eigenvecs], matrix.dtype, ortho_axis=0)
-                        Sv = G.opaque_tensor("SVDS", [n_eigenvecs])
+                        Sv = G.opaque_tensor("SVDS", [n_eigenvecs], real_dtype(matrix))
                         V = G.opaque_tensor("SVDV", [n_eigenvecs, matrix.shape[1]], matrix.dtype, ortho_axis=1)
                         G.NONNEG.add(G.name_of(Sv))
                         # all min(shape) singular values are kept (n_eigenvecs == number of columns <= rows): the SVD is exact
